@@ -97,10 +97,15 @@ TZMutate == /\ e.op = "zmutate"
             /\ Check(t, l, "ZoneMutatorRefused", \A i \in 1..Len(e.raised) : e.raised[i])
             /\ StateOK /\ Adv
 
+(* the caller scribbles on its own Rdataset / RRset objects: every retained version and
+   every open reader must look exactly as before (StateOK against the unchanged model) *)
+TScribble == /\ e.op = "scribble"
+             /\ CallerReusesObjects /\ StateOK /\ Adv
+
 TraceNext ==
     /\ l <= Len(Ev(t))
     /\ \/ TInitEv \/ TOpenLatest \/ TOpenId \/ TOpenSerial \/ TOpenBoth \/ TClose \/ TBegin \/ TStage
-       \/ TEnd \/ TSetMax \/ TSetMaxNone \/ TSetPolicy \/ TMutate \/ TZMutate
+       \/ TEnd \/ TSetMax \/ TSetMaxNone \/ TSetPolicy \/ TMutate \/ TZMutate \/ TScribble
 
 Accepted == Accepting(t, l)
 =============================================================================
